@@ -573,6 +573,10 @@ class World(object):
                     return False
         if self.sim._step_events or self.sim._bound_events:
             return False
+        if self.loop._regorder and len(self.loop._regorder) > 1:
+            # unread data in a watched pipe: the next poll will find it
+            if self.loop._selector.select(0):
+                return False
         for r in self.reqs:
             if not r.dispatched:
                 return False
